@@ -307,11 +307,11 @@ Proof.
   destruct (xonly && negb isexc); [constructor|].
   apply Forall_app. split.
   - destruct xonly; [constructor|]. unfold opt_list.
-    destruct (reg_of_args names view_classifier (with_ctx (d_args d) c)) eqn:E; [|constructor].
-    constructor; [|constructor]. exists view_classifier, (with_ctx (d_args d) c). exact E.
+    destruct (reg_of_args names view_classifier (with_ctx (forwarded_args P (d_dir d) (d_args d)) c)) eqn:E; [|constructor].
+    constructor; [|constructor]. exists view_classifier, (with_ctx (forwarded_args P (d_dir d) (d_args d)) c). exact E.
   - destruct isexc; [|constructor]. unfold opt_list.
-    destruct (reg_of_args names exc_classifier_id (with_ctx (d_args d) c)) eqn:E; [|constructor].
-    constructor; [|constructor]. exists exc_classifier_id, (with_ctx (d_args d) c). exact E.
+    destruct (reg_of_args names exc_classifier_id (with_ctx (forwarded_args P (d_dir d) (d_args d)) c)) eqn:E; [|constructor].
+    constructor; [|constructor]. exists exc_classifier_id, (with_ctx (forwarded_args P (d_dir d) (d_args d)) c). exact E.
 Qed.
 
 Lemma regs_upto_made P names nm user ph : Forall (made_by names) (regs_upto P names nm user ph).
@@ -353,9 +353,9 @@ Proof.
     rewrite Forall_forall in Hacc. exact (Hacc d Hd). }
   unfold regs_of_decl in Hv. destruct (effective_ctx P nm d) as [[c xonly] isexc].
   destruct (xonly && negb isexc); [destruct Hv|].
-  assert (G : forall cls, In v (opt_list (reg_of_args names cls (with_ctx (d_args d) c))) -> r_accept v = None).
+  assert (G : forall cls, In v (opt_list (reg_of_args names cls (with_ctx (forwarded_args P (d_dir d) (d_args d)) c))) -> r_accept v = None).
   { intros cls H. unfold opt_list in H.
-    destruct (reg_of_args names cls (with_ctx (d_args d) c)) eqn:E; [|destruct H].
+    destruct (reg_of_args names cls (with_ctx (forwarded_args P (d_dir d) (d_args d)) c)) eqn:E; [|destruct H].
     destruct H as [<-|[]]. rewrite (reg_of_args_accept _ _ _ _ E). exact Hda. }
   apply in_app_or in Hv. destruct Hv as [Hv|Hv].
   - destruct xonly; [destruct Hv|exact (G _ Hv)].
